@@ -1,5 +1,6 @@
 """C08 - memory-operand forms compose register-form data with load/store data."""
 import ast
+import re
 
 from .. import pm
 from ..pm import U
@@ -155,43 +156,287 @@ def _r1(ctx, f, blk, reg):
     need("register type = type of the entry's operand at the substituted position", bool(rt))
     subst = pm.find("operands = self.substitute_mem_address(instruction_form.operands)", f.node)
     need("register form is looked up with the memory operand replaced by the register wildcard", bool(subst))
-    # data-port vector: load part and store part
-    ld = [n for n in ast.walk(blk) if isinstance(n, ast.If) and U(n.test) == "INSTR_FLAGS.HAS_LD in instruction_form.flags"]
-    st = [n for n in ast.walk(blk) if isinstance(n, ast.If) and U(n.test) == "INSTR_FLAGS.HAS_ST in instruction_form.flags"]
-    need("load micro-ops are added exactly when the instruction loads", len(ld) == 1)
-    need("store micro-ops are added exactly when the instruction stores", len(st) == 1)
-    if len(ld) == 1 and ok:
-        l = ld[0]
-        a = pm.find("%s = self._machine_model.average_port_pressure(M_u)" % dpp_name, l)
-        need("data-port vector (load) = average of the selected load micro-ops", bool(a) and (
-            duops is None or not duops.isidentifier() or U(a[0][1]["M_u"]) == duops), l)
-        g = pm.find("M_p = self._machine_model.get_load_throughput(M_m)", l)
-        need("load micro-ops come from get_load_throughput(memory source operand)", bool(g) and all(
-            r in U(g[0][1]["M_m"]) for r in ("source", "src_dst", "MemoryOperand")), l)
-        mul = pm.find('%s = [M_x * M_m for M_x in %s]' % (dpp_name, dpp_name), l)
-        mg = [n for n in ast.walk(l) if isinstance(n, ast.If) and U(n.test) == "'load_throughput_multiplier' in self._machine_model"]
-        need("load pressure is scaled only by the model's load_throughput_multiplier[register type]",
-             len(mul) == 1 and len(mg) == 1 and C.in_subtree(mul[0][0], mg[0]) and any(
-                 U(n.value) == "self._machine_model['load_throughput_multiplier'][reg_type]" for n in ast.walk(mg[0])
-                 if isinstance(n, ast.Assign)), l)
-    if len(st) == 1 and ok:
-        s = st[0]
-        zs = pm.find("%s = [sum(M_x) for M_x in zip(%s, M_s)]" % (dpp_name, dpp_name), s)
-        need("store pressure is added element-wise to the data-port vector", len(zs) == 1, s)
-        g = pm.find("M_p = self._machine_model.get_store_throughput(M_m, M_r)", s)
-        need("store micro-ops come from get_store_throughput(memory destination operand, register type)",
-             bool(g) and "MemoryOperand" in U(g[0][1]["M_m"]), s)
-        if duops and duops.isidentifier():
-            cat = pm.find_any(["%s = %s + M_s" % (duops, duops), "%s += M_s" % duops, "%s.extend(M_s)" % duops,
-                               "%s = [*%s, *M_s]" % (duops, duops), "%s = list(chain(%s, M_s))" % (duops, duops),
-                               "%s = list(%s) + list(M_s)" % (duops, duops)], s)
-            other_def = [a_ for a_ in ast.walk(s) if isinstance(a_, (ast.Assign, ast.AugAssign)) and U(
-                a_.targets[0] if isinstance(a_, ast.Assign) else a_.target) == duops]
-            ctx.judge(len(cat) == 1, len(cat) == 1 or not other_def, "R1", "store micro-ops are appended to the data micro-ops", f.where(s),
-                      "composition provenance broken: store micro-ops are appended to the data micro-ops", f.qname,
-                      "store micro-ops are appended to the data micro-ops")
-        mul = [n for n in ast.walk(s) if isinstance(n, ast.If) and U(n.test) == "'store_throughput_multiplier' in self._machine_model"]
-        need("store pressure is scaled only by the model's store_throughput_multiplier[register type]", len(mul) == 1, s)
+    # ---- the composed pressure vector and micro-op list as symbolic sums / concatenations of their sources ----------
+    # (followed through locals, helpers that were expanded in place, conditional scaling; what is not one of the known
+    # vector / list operations is "not understood", never a violation)
+    UNK = None
+    model = "self._machine_model"
+    cfg = C.cfg_of(f)
+
+    def is_reg_src(e):
+        return ("%s.port_pressure" % reg) in U(e)
+
+    def leaf(e, at):
+        return ("SRC", getattr(cfg.node_of(at), "lineno", 0) if not isinstance(cfg.node_of(at), str) else 0, U(e)[:80])
+
+    def kind_of(e, at, depth=0, seen=None):
+        """LOAD / STORE / REG / ? - which table the micro-ops `e` were taken from (through locals)"""
+        seen = seen if seen is not None else set()
+        out = set()
+        for x in ast.walk(e):
+            if isinstance(x, ast.Call) and pm.call_name(x).endswith("get_load_throughput"):
+                out.add("LOAD")
+            if isinstance(x, ast.Call) and pm.call_name(x).endswith("get_store_throughput"):
+                out.add("STORE")
+            if isinstance(x, ast.Attribute) and U(x) == "%s.port_pressure" % reg:
+                out.add("REG")
+            if isinstance(x, ast.Name) and isinstance(x.ctx, ast.Load) and flow.is_local(x.id) and depth < 8:
+                try:
+                    ds = flow.reaching(at, x.id)
+                except KeyError:
+                    ds = []
+                for d in ds:
+                    if id(d) in seen or d.value is None:
+                        continue
+                    seen.add(id(d))
+                    out |= kind_of(d.value, d.stmt, depth + 1, seen)
+        return out
+
+    def seq(e, at, depth=0):
+        """alternatives of the micro-op list `e`: each a tuple of leaf sources"""
+        if depth > 60:
+            return UNK
+        if isinstance(e, ast.List) and not e.elts:
+            return [()]
+        if isinstance(e, ast.List) and all(isinstance(x, ast.Starred) for x in e.elts):
+            parts = [seq(x.value, at, depth + 1) for x in e.elts]
+        elif isinstance(e, ast.BinOp) and isinstance(e.op, ast.Add):
+            parts = [seq(e.left, at, depth + 1), seq(e.right, at, depth + 1)]
+        elif isinstance(e, ast.Call) and pm.call_name(e) == "list" and len(e.args) == 1 and C.is_call_to(e.args[0], "chain"):
+            parts = [seq(x, at, depth + 1) for x in e.args[0].args]
+        elif isinstance(e, ast.Call) and pm.call_name(e) in ("list", "copy.copy", "copy.deepcopy", "deepcopy", "copy") and len(e.args) == 1:
+            return seq(e.args[0], at, depth + 1)
+        elif is_reg_src(e) and not (isinstance(e, ast.Name)):
+            return [(("REG",),)]
+        elif isinstance(e, ast.Name) and flow.is_local(e.id):
+            try:
+                ds = flow.reaching(at, e.id)
+            except KeyError:
+                return UNK
+            out = []
+            for d in ds:
+                if d.kind == "assign" and d.value is not None:
+                    r = seq(d.value, d.stmt, depth + 1)
+                elif d.kind == "aug" and isinstance(d.stmt.op, ast.Add):
+                    l_, r_ = seq(ast.Name(id=e.id, ctx=ast.Load()), d.stmt, depth + 1), seq(d.value, d.stmt, depth + 1)
+                    r = UNK if l_ is UNK or r_ is UNK else [x + y for x in l_ for y in r_]
+                else:
+                    r = UNK
+                if r is UNK:
+                    return UNK
+                out.extend(r)
+            return out[:256]
+        else:
+            return [((leaf(e, at)),)] if True else UNK
+        if any(p is UNK for p in parts):
+            return UNK
+        out = [()]
+        for p in parts:
+            out = [x + y for x in out for y in p][:256]
+        return out
+
+    def _key_of(r):
+        b_ = pm.match("%s[M_k][M_t]" % model, r)
+        if b_ is not None:
+            from .. import consteval
+            try:
+                kv = consteval.ev(b_["M_k"], {})        # the key: a constant, or constants put together ('load' + '_throughput_multiplier')
+            except (consteval.Unsupported, consteval.Raised):
+                return None
+            if isinstance(kv, str):
+                return kv, U(b_["M_t"])
+        return None
+
+    def mult_alts(m, at):
+        """the factors `m` can stand for: [(key, register type expression, statement that reads it) | None for 1.0], or UNK"""
+        if isinstance(m, ast.Name):
+            try:
+                ds = flow.reaching(at, m.id)
+            except KeyError:
+                return UNK
+            out = []
+            for d in ds:
+                if d.kind != "assign" or d.value is None:
+                    return UNK
+                if C.const_num(d.value) == 1:
+                    out.append(None)
+                    continue
+                k = _key_of(d.value)
+                if k is None:
+                    return UNK
+                out.append((k[0], k[1], d.stmt))
+            return out or UNK
+        if C.const_num(m) == 1:
+            return [None]
+        k = _key_of(m)
+        return UNK if k is None else [(k[0], k[1], at)]
+
+    scalings = []       # (statement, key, register-type expression)
+    why_unk = []
+
+    def _unk(e):
+        why_unk.append(U(e)[:100])
+        return UNK
+
+    def vec(e, at, depth=0):
+        """alternatives of the pressure vector `e`: each a tuple of (leaf source, scales)"""
+        if depth > 60:
+            return _unk(e)
+        if C.zero_vector(e) is not None:
+            return [()]
+        if isinstance(e, ast.Call) and pm.call_name(e).endswith("average_port_pressure") and len(e.args) == 1:
+            srcs = seq(e.args[0], at, depth + 1)
+            if srcs is UNK:
+                return _unk(e)
+            # (the average over a concatenation is the sum of the averages; over no micro-ops it is the zero vector)
+            return [tuple((x, ()) for x in a_) for a_ in srcs]
+        if isinstance(e, ast.ListComp) and len(e.generators) == 1 and not e.generators[0].ifs:
+            g = e.generators[0]
+            if isinstance(g.target, ast.Name) and isinstance(e.elt, ast.BinOp) and isinstance(e.elt.op, ast.Mult):
+                sides = [e.elt.left, e.elt.right]
+                var = [x for x in sides if isinstance(x, ast.Name) and x.id == g.target.id]
+                other = [x for x in sides if x not in var]
+                if len(var) == 1 and len(other) == 1:
+                    ks = mult_alts(other[0], at)
+                    base = vec(g.iter, at, depth + 1)
+                    if ks is UNK or base is UNK:
+                        return _unk(e)
+                    out = []
+                    for k in ks:
+                        if k is None:
+                            out.extend(base)
+                        else:
+                            scalings.append((k[2], k[0], k[1]))
+                            out.extend(tuple((s_, sc + (k[0],)) for s_, sc in alt) for alt in base)
+                    return out[:256]
+            if C.is_call_to(g.iter, "zip") and len(g.iter.args) == 2:
+                summed = (isinstance(e.elt, ast.Call) and pm.call_name(e.elt) == "sum" and isinstance(g.target, ast.Name)
+                          and U(e.elt.args[0]) == g.target.id) or (
+                    isinstance(g.target, ast.Tuple) and len(g.target.elts) == 2 and isinstance(e.elt, ast.BinOp)
+                    and isinstance(e.elt.op, ast.Add) and {U(e.elt.left), U(e.elt.right)} == {U(t) for t in g.target.elts})
+                if summed:
+                    a_, b_ = vec(g.iter.args[0], at, depth + 1), vec(g.iter.args[1], at, depth + 1)
+                    if a_ is UNK or b_ is UNK:
+                        return _unk(e)
+                    return [x + y for x in a_ for y in b_][:256]
+            return _unk(e)
+        if pm.match("list(map(sum, zip(M_a, M_b)))", e) is not None:
+            m_ = pm.match("list(map(sum, zip(M_a, M_b)))", e)
+            a_, b_ = vec(m_["M_a"], at, depth + 1), vec(m_["M_b"], at, depth + 1)
+            return _unk(e) if a_ is UNK or b_ is UNK else [x + y for x in a_ for y in b_][:256]
+        if isinstance(e, ast.Name) and flow.is_local(e.id):
+            try:
+                ds = flow.reaching(at, e.id)
+            except KeyError:
+                return _unk(e)
+            out = []
+            for d in ds:
+                if d.kind != "assign" or d.value is None:
+                    why_unk.append("definition of %s by %s at line %s" % (e.id, d.kind, getattr(d.stmt, "lineno", "?")))
+                    return UNK
+                r = vec(d.value, d.stmt, depth + 1)
+                if r is UNK:
+                    return _unk(e)
+                out.extend(r)
+            return out[:256]
+        return _unk(e)
+
+    if pp and pu:
+        valts = vec(pp[0].value, pp[0])
+        ualts = seq(pu[0].value, pu[0])
+        inst = "composed pressure vector / micro-op list"
+        if valts is UNK or ualts is UNK:
+            ctx.unknown("R1", inst, f.where(pp[0]), "the composed %s is not built from the known vector / list operations%s" % (
+                "pressure vector" if valts is UNK else "micro-op list", (" (at `%s`)" % why_unk[0]) if why_unk else ""))
+        else:
+            def kind(src):
+                if src == ("REG",):
+                    return "REG"
+                ks = set()
+                for d_ in ast.walk(blk):
+                    pass
+                return None
+            # classify each leaf by the table it was read from
+            kinds_cache = {}
+            def leaf_kind(src):
+                if src == ("REG",):
+                    return "REG"
+                if src not in kinds_cache:
+                    # re-find the defining statement by line and evaluate the kinds of the names it reads
+                    st_ = [x for x in ast.walk(f.node) if isinstance(x, ast.stmt) and getattr(x, "lineno", None) == src[1]
+                           and src[2] in U(x)]
+                    ks = set()
+                    for x in st_:
+                        val = getattr(x, "value", None)
+                        if val is not None:
+                            ks |= kind_of(val, x)
+                    kinds_cache[src] = ks
+                ks = kinds_cache[src]
+                return next(iter(ks)) if len(ks) == 1 else ("MIX" if ks else "?")
+            allowed = {"REG": (), "LOAD": ("load_throughput_multiplier",), "STORE": ("store_throughput_multiplier",)}
+            bad_terms, unk_terms = [], []
+            for alt in valts:
+                ks = [leaf_kind(s_) for s_, _ in alt]
+                for (s_, sc), k in zip(alt, ks):
+                    if k in ("?", "MIX"):
+                        unk_terms.append((s_, sc))
+                    elif k == "REG" and sc:
+                        bad_terms.append(("the register form's pressure is scaled by %s" % list(sc), alt))
+                    elif k in allowed and any(x not in allowed[k] for x in sc) or len(sc) > 1:
+                        bad_terms.append(("the %s part is scaled by %s" % (k.lower(), list(sc)), alt))
+                if ks.count("REG") != 1 and not unk_terms:
+                    bad_terms.append(("the register form's pressure occurs %d times" % ks.count("REG"), alt))
+                for k in ("LOAD", "STORE"):
+                    if ks.count(k) > 1:
+                        bad_terms.append(("%s micro-ops are counted %d times" % (k.lower(), ks.count(k)), alt))
+            if unk_terms:
+                ctx.unknown("R1", inst, f.where(pp[0]), "a term of the pressure sum has a source that is neither the register form nor "
+                            "the load / store table: %s" % (unk_terms[0],))
+            for why_, alt in bad_terms[:3]:
+                ctx.bad("R1", "composed pressure = reg + m_load*load + m_store*store", f.where(pp[0]),
+                        "composition provenance broken: %s (one path builds the vector from %s)" % (
+                            why_, [(leaf_kind(s_), list(sc)) for s_, sc in alt]), f.qname, "composed pressure terms: " + why_)
+            if not bad_terms and not unk_terms:
+                ctx.ok("R1", "composed pressure = reg + [m_load*]load + [m_store*]store on every path (%d alternatives)" % len(valts), f.where(pp[0]))
+            # the pressure is computed from exactly the micro-ops that are kept
+            canon_src = lambda s_: ("REG",) if leaf_kind(s_) == "REG" else s_
+            vsets = {tuple(sorted(canon_src(s_) for s_, _ in alt)) for alt in valts}
+            usets = {tuple(sorted(canon_src(x) for x in alt)) for alt in ualts}
+            if not unk_terms:
+                only_p, only_u = sorted(vsets - usets), sorted(usets - vsets)
+                ctx.check(not only_p and not only_u, "R1", "pressure is averaged over exactly the micro-ops stored in port_uops", f.where(pu[0]),
+                          "composition provenance broken: the pressure vector is computed from micro-ops %s while port_uops keeps %s: "
+                          "pressure lies on ports no stored micro-op may use (or stored micro-ops carry no pressure)" % (
+                              [[x[2] if len(x) > 2 else x[0] for x in a_] for a_ in only_p][:2],
+                              [[x[2] if len(x) > 2 else x[0] for x in a_] for a_ in only_u][:2]), f.qname,
+                          "pressure sources = kept micro-ops")
+            # every scaling step sits under "the model defines that multiplier" and uses the register type of the entry
+            for st_, key_, rt_ in scalings:
+                guarded = C.holds_at(st_, "'%s' in %s" % (key_, model))
+                if not guarded:
+                    from .. import consteval
+                    for e_, pol_ in C.norm_fact_nodes(st_):
+                        if pol_ and isinstance(e_, ast.Compare) and isinstance(e_.ops[0], ast.In) and U(e_.comparators[0]) == model:
+                            try:
+                                guarded = guarded or consteval.ev(e_.left, {}) == key_
+                            except (consteval.Unsupported, consteval.Raised):
+                                pass
+                ctx.check(guarded and rt_ == "reg_type", "R1", "scaling by %s[reg_type] only when the model defines it" % key_, f.where(st_),
+                          "composition provenance broken: the %s scaling is %s" % (key_, "not guarded by `'%s' in model`" % key_ if not guarded
+                                                                                    else "indexed by %s" % rt_), f.qname, "scaling guard " + key_)
+    # the load / store parts are added exactly when the instruction loads / stores, from the right look-ups
+    for flag, getter, what in (("HAS_LD", "get_load_throughput", "load"), ("HAS_ST", "get_store_throughput", "store")):
+        calls = [c for c in ast.walk(blk) if isinstance(c, ast.Call) and pm.call_name(c).endswith(getter)]
+        need("%s micro-ops are looked up with %s" % (what, getter), len(calls) >= 1)
+        for c in calls:
+            need("%s micro-ops are added exactly when the instruction %ss" % (what, what),
+                 C.holds_at(c, "INSTR_FLAGS.%s in instruction_form.flags" % flag), c)
+            if what == "load":
+                need("load micro-ops come from get_load_throughput(memory source operand)", all(
+                    r in U(flow.subst(c.args[0])) for r in ("source", "src_dst", "MemoryOperand")) if c.args else False, c)
+            else:
+                need("store micro-ops come from get_store_throughput(memory destination operand, register type)",
+                     bool(c.args) and "MemoryOperand" in U(flow.subst(c.args[0])) and len(c.args) + len(c.keywords) >= 2, c)
 
 
 def _r2(ctx):
@@ -450,6 +695,83 @@ def _d2(ctx):
                               table, k, keys[k], q.split(".")[1], sorted(passed), k), init.qname, "%s %s field %s" % (isa, table, k))
 
 
+def _r7(ctx):
+    ctx.rule("R7", "the default load / store row is returned only when no table row matches the addressing mode (and register type, for stores)")
+    for q, table, typed in (("MachineModel.get_load_throughput", "load_throughput", False),
+                            ("MachineModel.get_store_throughput", "store_throughput", True)):
+        g = ctx.func(q)
+        gflow = C.flow_of(g)
+        mem = g.params()[1]
+        rets = [r for r in ast.walk(g.node) if isinstance(r, ast.Return) and r.value is not None]
+        dflt = [r for r in rets if ("%s_default" % table) in U(r.value)]
+        rows = [r for r in rets if r not in dflt]
+        if not dflt or not rows:
+            ctx.unknown("R7", "%s: table rows / default" % g.name, g.where(), "no return of the default row or no return of table rows found")
+            continue
+
+        def filt_kind(e):
+            """'mode' - the rows of the table that match the addressing mode, nothing else; 'typed' - such rows further filtered
+            by the register type; None - anything else"""
+            if not (isinstance(e, ast.ListComp) and len(e.generators) == 1 and U(e.elt) == U(e.generators[0].target)):
+                return None
+            gen = e.generators[0]
+            conds = [c_ for i_ in gen.ifs for c_ in C.conj_parts(i_)]
+            texts = [U(c_) for c_ in conds]
+            base = U(gen.iter)
+            mode = [t for t in texts if "_match_mem_entries(%s, %s[0])" % (mem, U(gen.target)) in t]
+            if base == "self._data['%s']" % table and len(texts) == 1 and mode:
+                return "mode"
+            if gflow.is_local(base) and all("_check_operands" in t or "is not None" in t for t in texts) and texts:
+                return "typed"
+            return None
+
+        for r in dflt:
+            # the emptiness test that leads here, and the list it is about
+            lists = []
+            for e, pol in C.norm_fact_nodes(r):
+                b = C.bounds_on(e, None) if False else None
+                t = U(e)
+                m_ = re.fullmatch(r"len\((\w+)\) (>|>=|==|<|<=) (\d+)", t)
+                if m_ and ((m_.group(2) == ">" and m_.group(3) == "0" and not pol) or (m_.group(2) == "==" and m_.group(3) == "0" and pol)
+                           or (m_.group(2) == ">=" and m_.group(3) == "1" and not pol) or (m_.group(2) == "<" and m_.group(3) == "1" and pol)):
+                    lists.append(m_.group(1))
+                elif isinstance(e, ast.Name) and not pol:
+                    lists.append(e.id)
+            if len(lists) != 1:
+                ctx.unknown("R7", "%s: default row" % g.name, g.where(r), "the default row is not returned under one emptiness test of a row list")
+                continue
+            try:
+                ds = gflow.reaching(r, lists[0])
+            except KeyError:
+                ds = []
+            kinds = []
+            for d in ds:
+                k = filt_kind(d.value) if d.kind == "assign" and d.value is not None else None
+                # a replacement that is only made when it is non-empty cannot be the empty list seen here
+                if k != "mode" and d.kind == "assign" and isinstance(d.value, ast.Name) and any(
+                        (pol and U(e) == d.value.id) or (pol and U(e) in ("len(%s) > 0" % d.value.id, "len(%s) >= 1" % d.value.id))
+                        for e, pol in C.norm_fact_nodes(d.stmt)):
+                    continue
+                kinds.append((k, d))
+            if not kinds or any(k is None for k, _ in kinds):
+                ctx.unknown("R7", "%s: default row" % g.name, g.where(r), "the row list `%s` is not built by the recognised filters" % lists[0])
+                continue
+            allowed = {"mode", "typed"} if typed else {"mode"}
+            bad = [d for k, d in kinds if k not in allowed]
+            ctx.check(not bad, "R7", "%s: the default row stands for 'no row of the table matches the addressing mode%s'" % (
+                g.name, " and register type" if typed else ""), g.where(bad[0].stmt) if bad else g.where(r),
+                "%s returns the model's default micro-ops although rows of the table match the addressing mode: the list tested for "
+                "emptiness was narrowed by `%s` first (a row of another register type used to be taken in that case)" % (
+                    g.name, U(bad[0].value)[:120] if bad else ""), g.qname, "default only without a matching row")
+
+
+def composition_rule(ctx):
+    """R1 alone (embedded by C01 / C02 as a premise)."""
+    f = ctx.func(FN)
+    blk, reg = _composed_block(ctx, f)
+    _r1(ctx, f, blk, reg)
+
+
 def run(ctx):
     C.require_locals(ctx, ctx.func('ArchSemantics.assign_tp_lt'), ['instruction_form', 'operands', 'reg_type', 'throughput', 'latency', 'latency_wo_load', 'assign_unknown', 'flags', 'port_number', 'instruction_data'])
     f = ctx.func(FN)
@@ -473,6 +795,7 @@ def run(ctx):
     _r5(ctx)
     _d1(ctx)
     _d2(ctx)
+    _r7(ctx)
     # R6: which register form is found, and whether the form counts as load / store / both, is decided by look-ups that
     # are retried without the mnemonic suffix - with the register-wildcard operands in every slot (shared with C07-R4)
     from . import c07
